@@ -245,3 +245,47 @@ Example C01_ex_timestep_flow :
                              * mass (cfg_eqb y) (denote (pipeline_cfg (update_cfg (met_update ex_ham (1 # 2))) x))) sp))
         (sse_weight ex_ham (1 # 2) (snd y))) sp = true.
 Proof. vm_compute. reflexivity. Qed.
+
+(* ---- with a longitudinal field (h of either sign): the cluster update flips cluster a with probability
+   w_a / 2, w_a the product of the flip ratios (0 for a field operator) inside the cluster; the pipeline
+   diagonal update -> weighted cluster update -> refresh leaves the SSE weight stationary on every space on
+   which, for the flip vectors of non-zero probability, the flipped configuration is in the space and has the
+   same cluster probabilities and the same product of matrix elements (conditions decidable on a concrete
+   space) ---- *)
+Theorem C01_timestep_stationary_with_field : forall H wfn beta L nv xs,
+  0 < beta -> (0 < h_nbonds H)%nat -> tspace_ok_w H wfn L nv xs ->
+  forall f : cfg -> Q,
+    Qsum (map (fun x => sse_weight H beta (snd x) * expect (pipeline_cfg_w wfn (update_cfg (met_update H beta)) x) f) xs)
+    == Qsum (map (fun x => sse_weight H beta (snd x) * f x) xs).
+Proof. exact metropolis_timestep_w_stationary. Qed.
+Print Assumptions C01_timestep_stationary_with_field.
+
+Theorem C01_timestep_is_pipeline_with_field : forall g beta st sl (f : cfg -> Q),
+  has_long g = true -> wf st sl = true ->
+  (forall p r, In (p, r) (denote (met_update (ising_ham g) beta (length sl) st sl)) ->
+     Nat.eqb (count_ops (fst (fst r))) 0 = false -> decompose (fst (fst r)) <> None) ->
+  expect (ising_timestep g false beta (length sl) st sl) (obs_of f)
+  == expect (pipeline_cfg_w (long_wf g) (update_cfg (met_update (ising_ham g) beta)) (st, sl)) f.
+Proof. exact ising_timestep_is_pipeline_w. Qed.
+Print Assumptions C01_timestep_is_pipeline_with_field.
+
+Theorem C01_space_check_with_field_sound : forall H wfn L nv xs,
+  space_ok H L xs -> cluster_check_w H wfn xs = true -> free_check nv xs = true -> tspace_ok_w H wfn L nv xs.
+Proof. exact tspace_check_w_sound. Qed.
+Print Assumptions C01_space_check_with_field_sound.
+
+(* non-vacuity with a field: the example plus a longitudinal term on spin 0 (weights 0 / 1): 42 configurations,
+   12 of them holding a field operator (their clusters have flip probability 0); flow equation of the whole
+   weighted pipeline at every configuration *)
+Example C01_ex_timestep_space_with_field : tspace_ok_w ex_ham_h ex_wfn 2 2 (canon ex_ham_h (all_substates 2) 2).
+Proof. exact ex_space_w_ok. Qed.
+
+Example C01_ex_timestep_flow_with_field :
+  let sp := canon ex_ham_h (all_substates 2) 2 in
+  length sp = 42%nat
+  /\ length (filter (fun c => existsb (fun q => Qeq_bool q 0) (clw_pr ex_wfn c)) sp) = 12%nat
+  /\ forallb (fun y => Qeq_bool
+        (Qsum (map (fun x => sse_weight ex_ham_h (1 # 2) (snd x)
+                             * mass (cfg_eqb y) (denote (pipeline_cfg_w ex_wfn (update_cfg (met_update ex_ham_h (1 # 2))) x))) sp))
+        (sse_weight ex_ham_h (1 # 2) (snd y))) sp = true.
+Proof. vm_compute. repeat split. Qed.
